@@ -258,6 +258,13 @@ CURATED = [
     'fragment a{C labeled c1 ringbond c1 single bond to c9}',
     'fragment a{C labeled c1 C labeled c2 single bond to c2}',
     'fragment a{C labeled c1 ringbond c1 single bond to c1}',
+    'fragment a{C labeled c1 C labeled c2 single bond to c1 ringbond c1 '
+    'single bond to c2}',
+    'fragment a{C labeled c1 C labeled c2 single bond to c1 ringbond c2 '
+    'double bond to c1}',
+    'fragment a{C labeled c1 C labeled c2 single bond to c1 C labeled c3 '
+    'single bond to c2 ringbond c3 any bond to c1 ringbond c1 ring bond to '
+    'c3}',
     'fragment a{C labeled c1 C labeled c2 quintuple bond to c1}',
     'fragment a{C* labeled c1}', 'fragment a{allylic C labeled c1}',
     'fragment a{C labeled c1 C labeled c2 double bond to c1 '
